@@ -139,7 +139,8 @@ Lemma comparable_typed_symmetric V T cv ct same a b r1 r2 :
   is_untyped_basic V = None -> is_untyped_basic T = None ->
   comparableTo V T cv ct same a b = Ok r1 -> comparableTo T V ct cv same b a = Ok r2 -> r1 = r2.
 Proof.
-  intros HV HT. unfold comparableTo. rewrite HV, HT. destruct same; [congruence|].
+  intros HV HT. unfold comparableTo. rewrite HV, HT. rewrite (andb_comm (comparable_cls T)).
+  destruct (comparable_cls V && comparable_cls T); cbn [negb]; [|congruence]. destruct same; [congruence|].
   unfold rorb.
   destruct (assignableConv V T cv a) as [[|]|]; destruct (assignableConv T V ct b) as [[|]|]; congruence.
 Qed.
